@@ -68,6 +68,33 @@ class _RenameLocals(ast.NodeTransformer):
         return node
 
 
+class _AddLogging(ast.NodeTransformer):
+    """benign twin: a logger.debug call at the start of every function body"""
+
+    def visit_FunctionDef(self, node):
+        self.generic_visit(node)
+        call = ast.parse("logger.debug('enter')").body[0]
+        i = 1 if (node.body and isinstance(node.body[0], ast.Expr) and
+                  isinstance(node.body[0].value, ast.Constant)) else 0
+        node.body.insert(i, call)
+        return node
+
+
+class _TryFinally(ast.NodeTransformer):
+    """benign twin: every function body wrapped in try/finally: pass"""
+
+    def visit_FunctionDef(self, node):
+        self.generic_visit(node)
+        i = 1 if (node.body and isinstance(node.body[0], ast.Expr) and
+                  isinstance(node.body[0].value, ast.Constant)) else 0
+        body = node.body[i:]
+        if not body:
+            return node
+        tr = ast.Try(body=body, handlers=[], orelse=[], finalbody=[ast.Pass()])
+        node.body = node.body[:i] + [tr]
+        return node
+
+
 def _global_twin(root, kind):
     for dp, dn, fn in os.walk(os.path.join(root, 'circus')):
         for f in fn:
@@ -76,7 +103,11 @@ def _global_twin(root, kind):
                 t = ast.parse(open(p, encoding='utf8').read())
                 if kind == 'rename-locals':
                     t = _RenameLocals().visit(t)
-                    ast.fix_missing_locations(t)
+                elif kind == 'add-logging':
+                    t = _AddLogging().visit(t)
+                elif kind == 'try-finally':
+                    t = _TryFinally().visit(t)
+                ast.fix_missing_locations(t)
                 out = ast.unparse(t) + '\n'
                 compile(out, p, 'exec')
                 with open(p, 'w', encoding='utf8') as fh:
@@ -159,6 +190,10 @@ def run_for(prop, repo, only=None):
     muts = load_mutants(prop)
     muts.append({'name': 'twin-global-unparse-roundtrip', 'global': 'unparse', 'expect': 'silent'})
     muts.append({'name': 'twin-global-rename-all-locals', 'global': 'rename-locals',
+                 'expect': 'silent'})
+    muts.append({'name': 'twin-global-logging-everywhere', 'global': 'add-logging',
+                 'expect': 'silent'})
+    muts.append({'name': 'twin-global-try-finally-wrap', 'global': 'try-finally',
                  'expect': 'silent'})
     if only:
         muts = [m for m in muts if m['name'] in only]
